@@ -267,13 +267,22 @@ def make_run_plan(run_seed: int, profile: str, tier: str = "quick", overrides: d
                 if hi_i >= lo_i:
                     agents = [dict(ag, a=["v", float(rng.randint(lo_i, hi_i))]) for ag in copy.deepcopy(agents)]
                     a_dtype = rng.choice(["int64", "int32"])
+            # (float32 initial states are NOT generated: lcm then computes the first period in single precision
+            # - weak type promotion - and results of different compilations differ at 1e-8..1e-7, which the
+            # comparison policy of DESIGN 3.6 would report although no property fixes those digits)
+            if False and cs and not big and a_dtype == "float64" and rng.random() < P.get("f32_batch_p", 0.0):
+                # single-precision data: the array handed over is the float32 rounding of the values (the oracles
+                # compare with the array that was actually passed)
+                a_dtype = "float32"
             b.batches[bid] = {"model": mid, "agents": agents, "key_order": list(recipe["states_order"]), "content": bid, "int_dtype": "int64", "a_dtype": a_dtype}
             # a variant with another key order / integer dtype: same content, same signature
             ko = list(recipe["states_order"])
             rng.shuffle(ko)
             b.batches[bid + "~v"] = {
                 "model": mid, "agents": agents, "key_order": ko, "content": bid, "int_dtype": rng.choice(["int64", "int32"]),
-                "a_dtype": rng.choice([a_dtype, "float64"]),
+                # (an integer-typed array may come back as float64: same values; a float32 array stays float32,
+                # its float64 original would be other values, i.e. another call signature)
+                "a_dtype": a_dtype if a_dtype == "float32" else rng.choice([a_dtype, "float64"]),
             }
         if not P.get("membership") and not big and rng.random() < P.get("large_batch_p", 0.0):
             # one long frame (tens of thousands of rows): row (t, i) must still be agent i in period t
